@@ -1,0 +1,65 @@
+//go:build verif
+
+package memberlist
+
+import (
+	"context"
+	"time"
+
+	"github.com/go-kit/log"
+	"github.com/hashicorp/memberlist"
+
+	"github.com/grafana/dskit/services"
+)
+
+// NewDetachedKVForVerif builds a KV that has no network transport and no memberlist instance:
+// the service only creates the two broadcast queues and marks the delegate ready, so that a
+// verification harness can play the network itself through the exported delegate methods
+// (GetBroadcasts, NotifyMsg, LocalState, MergeRemoteState). numNodes stands in for
+// memberlist.NumMembers (it drives the retransmit limit of the queues). Only built with -tags verif.
+func NewDetachedKVForVerif(cfg KVConfig, logger log.Logger, numNodes func() int) *KV {
+	m := NewKV(cfg, logger, nil, nil)
+
+	starting := func(_ context.Context) error {
+		m.localBroadcasts = &memberlist.TransmitLimitedQueue{NumNodes: numNodes, RetransmitMult: cfg.RetransmitMult}
+		m.gossipBroadcasts = &memberlist.TransmitLimitedQueue{NumNodes: numNodes, RetransmitMult: cfg.RetransmitMult}
+		m.delegateReady.Store(true)
+		return nil
+	}
+	running := func(ctx context.Context) error {
+		if m.cfg.NotifyInterval > 0 {
+			notifTicker := time.NewTicker(m.cfg.NotifyInterval)
+			defer notifTicker.Stop()
+			go m.monitorKeyNotifications(ctx, notifTicker.C)
+		}
+		<-ctx.Done()
+		return nil
+	}
+	stopping := func(_ error) error {
+		close(m.shutdown)
+		return nil
+	}
+	m.NamedService = services.NewBasicService(starting, running, stopping).WithName("memberlist_kv_detached")
+	return m
+}
+
+// StoreSnapshotForVerif returns a deep copy of the node-local store, tombstones included.
+func (m *KV) StoreSnapshotForVerif() map[string]ValueDesc {
+	return m.storeCopy()
+}
+
+// SendKeyNotificationsForVerif flushes the delayed watcher notifications, i.e. what one tick of
+// the NotifyInterval ticker does.
+func (m *KV) SendKeyNotificationsForVerif() {
+	m.sendKeyNotifications()
+}
+
+// CleanupObsoleteEntriesForVerif runs the periodic removal of obsolete (deleted) keys once.
+func (m *KV) CleanupObsoleteEntriesForVerif() {
+	m.cleanupObsoleteEntries()
+}
+
+// NumQueuedForVerif returns the lengths of the local and the forwarded broadcast queues.
+func (m *KV) NumQueuedForVerif() (local, gossip int) {
+	return m.localBroadcasts.NumQueued(), m.gossipBroadcasts.NumQueued()
+}
